@@ -5,6 +5,9 @@ CONSTANTS[group] = [(lean_name, file relative to /repo, regex with ONE group, ki
 _D = "arrow-data/src/decimal.rs"
 _S = "arrow-schema/src/datatype.rs"
 _T = "arrow-array/src/temporal_conversions.rs"
+_CD = "arrow-cast/src/cast/decimal.rs"
+_CM = "arrow-cast/src/cast/mod.rs"
+_PA = "arrow-array/src/array/primitive_array.rs"
 CONSTANTS = {
     "C13": [
         # `MAX_FOR_EACH_PRECISION[k] + 1` is the power of ten used by make_upscaler / make_downscaler /
@@ -31,6 +34,32 @@ CONSTANTS = {
         ("MICROSECONDS", _T, r"pub const MICROSECONDS: i64 = ([^;]+);", "int"),
         ("NANOSECONDS", _T, r"pub const NANOSECONDS: i64 = ([^;]+);", "int"),
         ("SECONDS_IN_DAY", _T, r"pub const SECONDS_IN_DAY: i64 = ([^;]+);", "int"),
+        # ---- SHAPE items: the exact text of the guard / rounding / check expressions the theorems
+        # are about.  Each regex spells the expression out and then captures the next number in the
+        # file (the value is irrelevant); any edit of the expression makes the item LOST, which
+        # breaks the obligation `source_shapes_present`.
+        ("SHAPE_UPSCALE_INFALLIBLE", _CD, r"let is_infallible_cast = \(input_precision as i8\) \+ delta_scale <= \(output_precision as i8\);\s*let f_infallible = is_infallible_cast\s*\.then_some\(move \|x\| O::Native::from_decimal\(x\)\.unwrap\(\)\.mul_wrapping\(mul\)\);[\s\S]*?(\d+)", "int"),
+        ("SHAPE_UPSCALE_FALLIBLE", _CD, r"let f_fallible = move \|x\| O::Native::from_decimal\(x\)\?\.mul_checked\(mul\)\.ok\(\);[\s\S]*?(\d+)", "int"),
+        ("SHAPE_DOWNSCALE_ROUND", _CD, r"let d = x\.div_wrapping\(div\);\s*let r = x\.mod_wrapping\(div\);\s*// Round result\s*let adjusted = match x >= I::Native::ZERO \{\s*true if r >= half => d\.add_wrapping\(I::Native::ONE\),\s*false if r <= half_neg => d\.sub_wrapping\(I::Native::ONE\),\s*_ => d,\s*\};\s*O::Native::from_decimal\(adjusted\)[\s\S]*?(\d+)", "int"),
+        ("SHAPE_DOWNSCALE_INFALLIBLE", _CD, r"let is_infallible_cast = \(input_precision as i8\) - delta_scale < \(output_precision as i8\);\s*let f_infallible = is_infallible_cast\.then_some\(move \|x\| f_fallible\(x\)\.unwrap\(\)\);[\s\S]*?(\d+)", "int"),
+        ("SHAPE_DOWNSCALE_HALF", _CD, r"let div = max\.add_wrapping\(I::Native::ONE\);\s*let half = div\.div_wrapping\(I::Native::ONE\.add_wrapping\(I::Native::ONE\)\);\s*let half_neg = half\.neg_wrapping\(\);[\s\S]*?(\d+)", "int"),
+        ("SHAPE_APPLY_DECIMAL_CAST", _CD, r"let array = if let Some\(f_infallible\) = f_infallible \{\s*array\.unary\(f_infallible\)\s*\} else if cast_options\.safe \{\s*array\.unary_opt\(\|x\| \{\s*f_fallible\(x\)\.filter\(\|v\| O::is_valid_decimal_precision\(\*v, output_precision\)\)\s*\}\)\s*\} else \{[\s\S]*?array\.try_unary\(\|x\| \{\s*let v = f_fallible\(x\)\.ok_or_else\(\|\| error\(x\)\)\?;\s*O::validate_decimal_precision\(v, output_precision, output_scale\)\.map\(\|\(\)\| v\)[\s\S]*?(\d+)", "int"),
+        ("SHAPE_SAME_TYPE_SHORTCUT", _CD, r"if input_scale == output_scale && input_precision <= output_precision \{\s*array\.clone\(\)\s*\} else if input_scale <= output_scale \{[\s\S]*?(\d+)", "int"),
+        ("SHAPE_FLOAT_TO_DECIMAL", _CD, r"D::Native::from_f64\(\(mul \* input\)\.round\(\)\)\s*\}[\s\S]*?(\d+)", "int"),
+        ("SHAPE_FLOAT_MUL", _CD, r"let mul = 10_f64\.powi\(scale as i32\);[\s\S]*?(\d+)", "int"),
+        ("SHAPE_DEC_TO_INT_DIV", _CD, r"let v = array\s*\.value\(i\)\s*\.div_checked\(div\)\s*\.ok\(\)\s*\.and_then\(<T::Native as NumCast>::from::<D::Native>\);[\s\S]*?(\d+)", "int"),
+        ("SHAPE_INT_TO_DEC_SAFE", _CM, r"true => array\.unary_opt::<_, D>\(\|v\| \{\s*let v = integer_to_decimal_native::<_, M>\(v\)\s*\.and_then\(\|v\| v\.mul_checked\(scale_factor\)\.ok\(\)\)\?;\s*\(D::is_valid_decimal_precision\(v, precision\)\)\.then_some\(v\)\s*\}\),[\s\S]*?(\d+)", "int"),
+        ("SHAPE_INT_TO_DEC_STRICT", _CM, r"false => array\.try_unary::<_, D, _>\(\|v\| \{\s*let v = integer_to_decimal_native::<_, M>\(v\)\s*\.ok_or_else\(\|\| overflow\(v\)\)\s*\.and_then\(\|v\| v\.mul_checked\(scale_factor\)\)\?;\s*D::validate_decimal_precision\(v, precision, scale\)\.map\(\|\(\)\| v\)\s*\}\)\?,\s*\}\s*\};[\s\S]*?(\d+)", "int"),
+        ("SHAPE_INT_TO_DEC_DISPATCH", _CM, r"\}\)\?;\s*match cast_options\.safe \{\s*true => array\.unary_opt::<_, D>\(\|v\| \{\s*let v = integer_to_decimal_native[\s\S]*?(\d+)", "int"),
+        ("SHAPE_NUMERIC_CAST", _CM, r"if cast_options\.safe \{\s*// If the value can't be casted to the `TO::Native`, return null\s*Ok\(Arc::new\(numeric_cast::<FROM, TO>\(\s*from\.as_primitive::<FROM>\(\),\s*\)\)\)\s*\} else \{\s*// If the value can't be casted to the `TO::Native`, return error\s*Ok\(Arc::new\(try_numeric_cast::<FROM, TO>\([\s\S]*?(\d+)", "int"),
+        ("SHAPE_NUM_CAST", _CM, r"num_traits::cast::cast::<I, O>\(value\)[\s\S]*?(\d+)", "int"),
+        ("SHAPE_NUMERIC_UNARY_OPT", _CM, r"from\.unary_opt::<_, R>\(num_cast::<T::Native, R::Native>\)[\s\S]*?(\d+)", "int"),
+        ("SHAPE_TS_UNIT_CHANGE", _CM, r"Ordering::Greater => \{\s*let divisor = from_size / to_size;\s*time_array\.unary::<_, Int64Type>\(\|o\| o / divisor\)\s*\}\s*Ordering::Equal => time_array\.clone\(\),\s*Ordering::Less => \{\s*let mul = to_size / from_size;\s*if cast_options\.safe \{\s*time_array\.unary_opt::<_, Int64Type>\(\|o\| o\.checked_mul\(mul\)\)\s*\} else \{\s*time_array\.try_unary::<_, Int64Type, _>\(\|o\| o\.mul_checked\(mul\)\)\?[\s\S]*?(\d+)", "int"),
+        ("SHAPE_DATE64_TS_CHECKED", _CM, r"date_array\.unary_opt::<_, TimestampMicrosecondType>\(\|x\| \{\s*x\.checked_mul\(MICROSECONDS / MILLISECONDS\)[\s\S]*?(\d+)", "int"),
+        ("SHAPE_UNARY_OPT", _PA, r"match op\(unsafe \{ self\.value_unchecked\(idx\) \}\) \{\s*Some\(v\) => unsafe \{ \*slice\.get_unchecked_mut\(idx\) = v \},\s*None => \{\s*out_null_count \+= 1;\s*null_builder\.set_bit\(idx, false\);[\s\S]*?(\d+)", "int"),
+        ("SHAPE_TRY_UNARY", _PA, r"unsafe \{ \*slice\.get_unchecked_mut\(idx\) = op\(self\.value_unchecked\(idx\)\)\? \};\s*Ok::<_, E>\(\(\)\)\s*\};\s*match &nulls \{\s*Some\(nulls\) => nulls\.try_for_each_valid_idx\(f\)\?,\s*None => \(0\.\.len\)\.try_for_each\(f\)\?,[\s\S]*?(\d+)", "int"),
+        ("SHAPE_PARSER_PRIMITIVE", "arrow-cast/src/parse.rs", r"match atoi::FromRadix10SignedChecked::from_radix_10_signed_checked\(raw_bytes\) \{\s*\(Some\(n\), x\) if x == raw_bytes\.len\(\) => Some\(n\),[\s\S]*?(\d+)", "int"),
+        ("SHAPE_VALID_PRECISION", _D, r"precision <= DECIMAL128_MAX_PRECISION\s*&& value >= MIN_DECIMAL128_FOR_EACH_PRECISION\[precision as usize\]\s*&& value <= MAX_DECIMAL128_FOR_EACH_PRECISION\[precision as usize\][\s\S]*?(\d+)", "int"),
     ],
 }
 FUNCTIONS = {}
